@@ -87,6 +87,23 @@ Theorem unsubscribe_removes_only_named : forall raises acts s cs rs c,
     /\ (In c (subs s) -> ~ In c cs -> In c (subs (fst (step raises acts s (Unsubscribe cs rs))))).
 Proof. exact subs_unsubscribe. Qed.
 
+(* A subscribe() call on a live push-mode session (ANY state, any ids - duplicates, any order, several accessory
+   ids, ids already subscribed -, any reply script) that is not itself cut off asks the accessory with ev:true for
+   exactly the ids the caller named (set equality over all its requests), sends no ev:false, calls no listener,
+   keeps the session, and the subscription set afterwards is the old one plus exactly what the accessory was asked
+   for: nothing is recorded as subscribed without having been asked on this session.  (The model feeds bookkeeping
+   and requests from ONE list: the repaired code materialises the Iterable once, so a generator argument is not
+   consumed by the bookkeeping - fixes/C12-subscribe-oneshot-iterable.patch.) *)
+Theorem subscribe_asks_all_named : forall raises acts s cs rs s' o,
+    conn s = true -> sup s = true ->
+    step raises acts s (Subscribe cs rs) = (s', o) -> sup s' = true ->
+    (forall c, In c (put_ids true o) <-> In c cs)
+    /\ put_ids false o = []
+    /\ (forall l, calls_of l o = [])
+    /\ conn s' = true
+    /\ (forall c, In c (subs s') <-> In c (subs s) \/ In c (put_ids true o)).
+Proof. exact main_subscribe_asks_named. Qed.
+
 (* For every event stream bs sent on a live session reached by any history, and every listener
    set (listeners that do not touch the registry; the general case is listener_log_exact and
    delivery_is_reentrancy_safe): a registered listener's calls are exactly the formatted
@@ -266,6 +283,19 @@ Example c12_nonvacuous_overlap :
      = [(2, 2); (2, 3); (1, 2); (1, 3); (2, 2)].
 Proof. vm_compute. repeat split. Qed.
 
+(* subscribe_asks_all_named is not vacuous: on the live session after the first 6 steps of ex_hist a call naming
+   4 ids (one duplicate, one already subscribed, aids interleaved) sends requests for all of them *)
+Example c12_nonvacuous_subscribe :
+  let s := fst (run ex_raises ex_acts (firstn 6%nat ex_hist)) in
+  conn s = true /\ sup s = true
+  /\ step ex_raises ex_acts s (Subscribe [(2, 3); (1, 2); (1, 3); (2, 3)]%N []) =
+     (mkst [(1, 2); (2, 2); (2, 3); (1, 3)]%N (lst s) true true,
+      snd (step ex_raises ex_acts s (Subscribe [(2, 3); (1, 2); (1, 3); (2, 3)]%N [])))
+  /\ (forall c, In c [(2, 3); (1, 2); (1, 3)]%N ->
+       In c (put_ids true (snd (step ex_raises ex_acts s (Subscribe [(2, 3); (1, 2); (1, 3); (2, 3)]%N [])))))
+  /\ In (ORet RetDict) (snd (step ex_raises ex_acts s (Subscribe [(2, 3); (1, 2); (1, 3); (2, 3)]%N []))).
+Proof. vm_compute. repeat split; try reflexivity; intros c H; tauto. Qed.
+
 Print Assumptions state_is_sets.
 Print Assumptions resubscribe_all.
 Print Assumptions resubscribe_cut_off_iff.
@@ -275,6 +305,7 @@ Print Assumptions fallback_is_permanent.
 Print Assumptions subscriptions_survive.
 Print Assumptions subscribe_adds.
 Print Assumptions unsubscribe_removes_only_named.
+Print Assumptions subscribe_asks_all_named.
 Print Assumptions event_once_in_order.
 Print Assumptions listener_log_exact.
 Print Assumptions event_keyed_by_aid_iid.
